@@ -234,7 +234,8 @@ Repr(v, h, fuel) ==
         (IF Len(v.v) = 1 THEN <<40>> \o Repr(v.v[1], h, fuel - 1) \o <<44, 41>>
          ELSE <<40>> \o JoinSeq([i \in 1..Len(v.v) |-> Repr(v.v[i], h, fuel - 1)], <<44, 32>>, 1) \o <<41>>)
     ELSE IF v.t = "range" THEN
-        (<<114, 97, 110, 103, 101, 40>> \o IntStr(v.a) \o <<44, 32>> \o IntStr(v.b)
+        \* range(b) when it starts at 0 with step 1; range(a, b); range(a, b, c)
+        (<<114, 97, 110, 103, 101, 40>> \o (IF v.a = 0 /\ v.c = 1 THEN <<>> ELSE IntStr(v.a) \o <<44, 32>>) \o IntStr(v.b)
            \o (IF v.c = 1 THEN <<>> ELSE <<44, 32>> \o IntStr(v.c)) \o <<41>>)
     ELSE IF IsList(v, h) THEN
         (<<91>> \o JoinSeq([i \in 1..Len(h[v.a].items) |-> Repr(h[v.a].items[i], h, fuel - 1)], <<44, 32>>, 1) \o <<93>>)
